@@ -564,12 +564,15 @@ pub fn check_generated(acc: &mut Acc, pkgs: &[Pkg], g: &ModuleGraph, fx: &FcCtx)
           let durl = file_url(p, dfile);
           // span of the top-level item that declares the spoiled declaration
           let _ = &src;
-          let (decl_start, decl_end) = parse_ts(&url(&durl), &src, deno_graph::MediaType::TypeScript, false)
+          let mut spans = parse_ts(&url(&durl), &src, deno_graph::MediaType::TypeScript, false)
             .ok()
-            .and_then(|p| top_level_span(&p, &ddecl.name))
-            .unwrap_or((0, src.len()));
+            .map(|p| top_level_spans(&p, &ddecl.name))
+            .unwrap_or_default();
+          if spans.is_empty() {
+            spans.push((0, src.len()));
+          }
           let on_decl = diag_specs.iter().any(|(_, _, r)| {
-            r.as_ref().is_some_and(|(s, off)| *s == durl && *off >= decl_start && *off <= decl_end)
+            r.as_ref().is_some_and(|(s, off)| *s == durl && spans.iter().any(|(a, b)| *off >= *a && *off <= *b))
           });
           if !on_decl {
             acc.violation(
